@@ -5,6 +5,7 @@ import (
 	"encoding/json"
 	"fmt"
 	"io"
+	"strings"
 	"testing"
 	"time"
 
@@ -74,10 +75,15 @@ type execResult struct {
 // goroutine; the quiescence monitor decides whether it can still finish. A Stuck
 // verdict is re-examined several times (a truly stuck run stays stuck for ever, so
 // this costs nothing); retracted is the number of Stuck verdicts that did not survive.
-func execute(ag *react.Agent, mode string, c *caseSpec) (r *execResult, modeName string, res mon.WaitResult, dump []mon.G, retracted int) {
-	modeName = map[string]string{"G": "generate", "S": "stream"}[mode]
-	r = &execResult{}
+func execute(ag *react.Agent, mode string, c *caseSpec) (*execResult, string, mon.WaitResult, []mon.G, int) {
+	modeName := map[string]string{"G": "generate", "S": "stream"}[mode]
+	r := &execResult{} // captured by the run goroutine: never reassigned
 	r.out.Mode = modeName
+	var (
+		res       mon.WaitResult
+		dump      []mon.G
+		retracted int
+	)
 	input := buildInput(c)
 	before := normAll(input)
 	ctx := context.WithValue(context.Background(), ctxKey{}, 1)
@@ -134,21 +140,50 @@ func execute(ag *react.Agent, mode string, c *caseSpec) (r *execResult, modeName
 		}
 	}()
 	const watchdog = 120 * time.Second
-	res, dump = mon.WaitDone(done, watchdog)
-	for i := 0; res == mon.Stuck && i < 5; i++ {
-		time.Sleep(5 * time.Millisecond)
-		var d2 []mon.G
-		if res, d2 = mon.WaitDone(done, watchdog); res == mon.Stuck {
-			dump = d2
-		} else {
-			retracted++
+	// A Stuck verdict must survive 6 examinations in a row. Two things make a single
+	// verdict unreliable: (1) a goroutine that waits for a runtime-internal semaphore
+	// (GC start, stop-the-world -- also the one taken by the monitor's own goroutine
+	// dump) shows the state "semacquire" although hidden runtime goroutines will wake
+	// it: such dumps are not counted; (2) plain bad luck under heavy load.
+	confirmed := 0
+	for try := 0; try < 80; try++ {
+		res, dump = mon.WaitDone(done, watchdog)
+		if res != mon.Stuck {
+			break
 		}
+		if runtimeSemWait(dump) {
+			retracted++
+			continue
+		}
+		if confirmed++; confirmed >= 6 {
+			break
+		}
+		time.Sleep(5 * time.Millisecond)
+	}
+	if res == mon.Stuck && confirmed < 6 {
+		res = mon.Inconclusive
+	}
+	if res == mon.Finished {
+		retracted += confirmed
 	}
 	if res != mon.Finished {
 		return nil, modeName, res, dump, retracted
 	}
 	return r, modeName, res, nil, retracted
 }
+
+// runtimeSemWait: some goroutine is parked on a semaphore of the runtime itself (no
+// sync.* frame between it and the semaphore): the process is not quiescent.
+func runtimeSemWait(gs []mon.G) bool {
+	for i, g := range gs {
+		if i > 0 && strings.HasPrefix(g.State, "semacquire") && !g.Has("sync.") {
+			return true
+		}
+	}
+	return false
+}
+
+var hangsSeen int // confirmed hangs in this process
 
 func TestCheck(t *testing.T) {
 	cfg := mon.Load("C18")
@@ -184,6 +219,12 @@ func TestCheck(t *testing.T) {
 
 	n := int64(cfg.Pick(300, 5000)) // scripts per shard; each runs under both checker configurations
 	rep.Cases(n, func(idx int64, rng *mon.Rand) {
+		if hangsSeen >= 8 {
+			// every hang leaves goroutines behind and costs several quiescence proofs; the
+			// violation is recorded, the rest of this shard would only repeat it slowly
+			rep.Count("cases_skipped_after_8_hangs", 1)
+			return
+		}
 		c := generate(rng)
 		sim := simulate(c, false)
 		if idx < 2 {
@@ -263,7 +304,8 @@ func runAgent(rep *mon.Reporter, c *caseSpec, a *agentSpec, sim simOut) bool {
 			for _, g := range mon.Parked(dump, "github.com/cloudwego/eino/", "verifharness/checks/c18") {
 				txt += g.Raw + "\n\n"
 			}
-			txt += fmt.Sprintf("(%d goroutines in the dump; the Stuck verdict was confirmed by 5 further examinations)", len(dump))
+			txt += fmt.Sprintf("(%d goroutines in the dump; the Stuck verdict was confirmed by 6 examinations in a row)", len(dump))
+			hangsSeen++
 			rep.Violation("C18/hang/"+out.Mode+suffix, "process quiescent while the run is unfinished\n"+txt, w(runName))
 			return false
 		case mon.Inconclusive:
